@@ -12,6 +12,7 @@ static struct cmd cmds[] = {
   {"c04", cmd_c04},
   {"c02", cmd_c02},
   {"c05", cmd_c05},
+  {"c12", cmd_c12},
   {NULL, NULL}
 };
 int main(int argc, char **argv) {
